@@ -89,6 +89,16 @@ CLAIMED = {
             "read with -fno-access-control. 64-bit targets unconstrained for magnitudes >= 2^63 (as stated). "
             "split_args tokenisation itself is decided under C08.",
             "DESIGN.md 3.17"),
+    "C08": ("TLA+ plain reference definitions of the string helpers written as folds (spec/Strings): TLC checks the "
+            "split/join, strip, replace, argument-splitting laws on every string up to length 5-6 over an adversarial "
+            "alphabet, and validates batched (input, result) pairs recorded from the real helpers",
+            "Exhaustive: every string up to length 5 (thorough 7) over five 4-symbol alphabets x every helper x every "
+            "delimiter / max_splits 0..3 / 1-2 symbol target; random strings over all 256 byte values up to 4 KiB; join "
+            "on vectors with empty pieces; string_printf results at every length around 1024 / 4096 / 16384 / 65536 "
+            "(thorough 1 MiB) compared run-length encoded against a TLA+ rendering of the directive list.",
+            "Trusted: TLC; the harness's run-length encoder; printf reference restricted to %s %d %x %c %% with "
+            "width / '-' / '0' flags. split_args follows phosg's dialect (DESIGN 4.2).",
+            "DESIGN.md 3.8"),
 }
 
 NOT_YET = "check not built yet in this round (planned: see DESIGN.md section 3)"
